@@ -135,6 +135,27 @@ def _op_ty(B, a):
 def restart_guard(B, bb):
     """visited-stack idiom: the recursive call in block bb is dominated by (1) the false arm of a membership test
     (`iter().any(..)` / `contains`) over a field F of a `&mut` document parameter and (2) a later `push` onto the same F."""
+    # the same idiom on a set: `if !visited.insert(key) { return Err(..) }` tests and marks in one step (insert yields false when
+    # the key was there already); the call must lie on the arm where it yielded true
+    for tbb, tt in B.calls():
+        d = M.Body.callee_decl(tt) or ""
+        if not (d.endswith("::insert") and ("BTreeSet" in d or "HashSet" in d)) or tt.get("target") is None or tbb == bb or not B.dominates(tbb, bb):
+            continue
+        if not any(o.kind == "arg" and o.fields() for o in M.trace(B, tt["args"][0], ())):
+            continue
+        sw = B.term(tt["target"])
+        res = tt["dest"]["l"]
+        # `!inserted`: a Not in the target block before the switch
+        negated = any(st["k"] == "assign" and st["rv"]["k"] == "unop" and st["rv"].get("op") == "Not" and st["rv"]["a"].get("p", {}).get("l") == res
+                      for st in B.blocks[tt["target"]]["stmts"]) if tt["target"] < len(B.blocks) else False
+        if sw.get("k") != "switch":
+            continue
+        zero_t = [tgt for v, tgt in sw["targets"] if v == 0]
+        if not zero_t:
+            continue
+        inserted_arm, present_arm = (zero_t[0], sw["otherwise"]) if negated else (sw["otherwise"], zero_t[0])
+        if B.dominates(inserted_arm, bb) and bb not in B.reachable_from(present_arm, avoid=[tbb]):
+            return True, "test-and-insert on a visited set dominates the call"
     pushes = []
     push_roots = {}
     for pbb, pt in B.calls_to("Vec::<T, A>::push"):
